@@ -702,7 +702,8 @@ def robust_one(col, role, data, split, webstatus, judge_client_open=True):
         d = drv.get_driver()
         try:
             if role == "server":
-                side = wsutil.server(d, opts={"webStatus": webstatus, "openHandshakeTimeout": 0})
+                # webstatus == "flash": the server additionally serves a Flash socket policy file for a policy-file request (and drops the connection)
+                side = wsutil.server(d, opts={"webStatus": bool(webstatus), "openHandshakeTimeout": 0, "serveFlashSocketPolicy": webstatus == "flash"})
             else:
                 side = wsutil.client(d, opts={"openHandshakeTimeout": 0})
             ep = side.connect()
@@ -758,7 +759,7 @@ def robustness(col, seed, n):
         st.integers(0, len(valid_req)).map(lambda k: valid_req[:k]),
         st.just(b"GET / HTTP/1.1\r\n" + b"X-Pad: " + b"a" * 70000 + b"\r\n"),
         st.just(b"\r\n\r\n"), st.just(b"<policy-file-request/>\x00"))
-    strat = st.tuples(st.sampled_from(["server", "server", "client"]), junk, st.sampled_from(["one", "bytes", "halves"]), st.booleans())
+    strat = st.tuples(st.sampled_from(["server", "server", "client"]), junk, st.sampled_from(["one", "bytes", "halves"]), st.sampled_from([False, True, True, "flash"]))
 
     def body(t):
         robust_one(col, *t)
